@@ -23,7 +23,15 @@ let eval_h (line : string) : string =
   match split_on_str " ;; " line with
   | [a; b] ->
     let ra = eval_line a and rb = eval_line b in
-    if ra = "panic" || rb = "panic" then "panic" else ra ^ " | " ^ rb
+    (* the model's [mirror] (the one the C15 theorems are about) applied to the first position must print
+       as the mirrored FEN the harness built independently *)
+    let mir =
+      match m_new_from_fen (bytes_of_string (String.trim a)) with
+      | Ok p -> (match m_to_fen (m_mirror p) with
+                 | Ok t -> if string_of_bytes t = String.trim b then "mir=ok" else "mir=" ^ string_of_bytes t
+                 | _ -> "mir=panic")
+      | _ -> "mir=ok" in
+    if ra = "panic" || rb = "panic" then "panic" else ra ^ " | " ^ rb ^ " | " ^ mir
   | _ -> failwith "EVAL: bad case"
 
 let () = Reg.register "EVAL" eval_h
